@@ -6,7 +6,7 @@
 From Soy Require Import Proofs.SourceTieDirectives.
 From Soy Require Import Model.Bytes Generated.Tables Model.Utf8 Model.Num Model.Outcome Model.Values Model.Escape Model.Directives Model.JsEscape
   Model.JsonEncode Spec.Html Spec.Codec Spec.Json Proofs.Utf8Proofs Proofs.CodecProofs Proofs.CodecJsPair Proofs.CodecJsonNum Proofs.CodecJson Proofs.CodecJsonInert
-  Model.JsDirectives Spec.JsUnits Proofs.CodecJsUnits Proofs.CodecJsAgree Proofs.CodecJsTie.
+  Model.JsDirectives Spec.JsUnits Proofs.CodecJsUnits Proofs.CodecJsAgree Proofs.CodecJsTie Model.InterpJson Proofs.CodecWalkerJson.
 Open Scope N_scope.
 
 (* ---------------- escapeUri ---------------- *)
@@ -432,3 +432,19 @@ Example C16_js_tie_nonvacuous :
   /\ jst_replace_alts jsu_br_alternatives jsu_br_replacement 0 [97; 13; 10; 98; 13] = b "a<br>b<br>"
   /\ jst_in_class jsu_uri_marks 40 = true /\ jst_uri_mark_piece 40 = b "%28".
 Proof. vm_compute. repeat split; reflexivity. Qed.
+
+(* ---------------- the directives inside the walker-level model ---------------- *)
+(* Model/Directives.v apply_fn (base walker) answers OutOfModel for escapeJsString and json; the extended walker
+   walk_xj of Model/InterpJson.v (C06) applies them through hooks.  Its json hook computes exactly json_encode --
+   the encoder of the theorems above -- on values with sorted keys whose floats both float printers write alike,
+   so a {$v|json} rendered through walk_xj parses back to the value. *)
+Theorem C16_walker_json_is_json_encode : forall v args, cwj_sorted v ->
+  dir_json (Some v) args = (s <- json_encode json_nil_null v ;; Ok (Some (VStr s))).
+Proof. exact cwj_dir_json. Qed.
+Print Assumptions C16_walker_json_is_json_encode.
+
+Theorem C16_walker_json_roundtrip : forall v args s, json_ok json_nil_null v -> cwj_floats v ->
+  dir_json (Some v) args = Ok (Some (VStr s)) ->
+  exists j, jv_of_value v = Some j /\ json_parse s = Some j.
+Proof. exact cwj_dir_json_roundtrip. Qed.
+Print Assumptions C16_walker_json_roundtrip.
